@@ -698,3 +698,37 @@ def k1_then_fail_jobs(start_run=1):
                          "drain": True, "tag": "directed:k1_then_fail"})
             run += 1
     return jobs
+
+
+# ---------------------------------------------------------------------------------------------
+# Directed schedules: while the pay command is outstanding (no part yet, one part or two parts in flight) a further HTLC
+# of the same hash arrives that trips a fail request (conflicting invoice, relative expiry too low, declared total too
+# low, conflicting declared amount).  Time passes, then the parts and the pay command end one way or the other.  Until
+# then the fate of the attempt is open: the record stays in-flight (C08), nothing is failed back (C02), and all HTLCs of
+# the set, the late one included, get the same resolution (C07).
+def late_bad_jobs(start_run=1):
+    jobs = []
+    run = start_run
+    ds = lambda key: {"kind": "ds", "hash": "h1", "key": key}
+    X = lambda sel, fault="none": {"a": "exec", "sel": sel, "fault": fault}
+    D = lambda sel: {"a": "deliver", "sel": sel}
+    lds = {"kind": "listds", "hash": "h1"}; payc = {"kind": "pay", "hash": "h1"}
+    cfg = dict(CFG_A)
+    p = pool(cfg, 10)
+    g = p["good"][2]
+    for bad in p["bad"][:4]:
+        for nparts in (0, 1, 2):
+            for outcome in ("complete", "failed"):
+                for wait in (1, cfg["mpp"] + 2):
+                    s = [{"a": "htlc", "i": 1}, X(lds), D(lds), X(ds("state")), D(ds("state")), X(ds("att")), D(ds("att")), X(payc)]
+                    s += [{"a": "paypart", "sel": payc}] * nparts
+                    s += [{"a": "htlc", "i": 2}] + [{"a": "tick"}] * wait
+                    if nparts == 0:
+                        s += [{"a": "paypart", "sel": payc}]
+                    s += [{"a": "tick"}]
+                    s += [{"a": "partdone", "p": k, "how": outcome, "code": 203} for k in range(1, max(1, nparts) + 1)]
+                    s += [{"a": "payreturn", "sel": payc, "outcome": outcome}, D(payc)]
+                    jobs.append({"run": run, "scen": {"cfg": cfg, "invs": invs_for(10), "htlcs": [g, bad], "probe": []}, "sched": s,
+                                 "drain": True, "tag": "directed:late_bad"})
+                    run += 1
+    return jobs
